@@ -354,7 +354,15 @@ def run_session(case, stats):
         if st["op"] == "streaming_shell":
             st["take"] = None
     sc["dims"]["noise"] = []
+    big = rng.random() < 0.25
+    if big:
+        # one transfer whose WRTE payloads are far above any USB packet / URB size, over a link that transfers short now and then
+        sc["steps"].insert(rng.randrange(len(sc["steps"]) + 1), {"op": "push", "path": "/bigpush", "size": rng.choice([70000, 200000]), "seed": case["seed"], "src": "bytesio", "mode": 0o100644, "mtime": 8, "cb": None})
+        stats["sessions_with_big_push"] = stats.get("sessions_with_big_push", 0) + 1
     dev, sim, be, adb, link, iface, clock, mon = usb_session(case, rng, default=rng.choice([None, 5.0]))
+    if big:
+        sim.maxdata = rng.choice([65536, 256 * 1024, 1024 * 1024])
+        link.short_writes = True
     us = UsbSess(dev, sim, clock, mon)
     r = scen.Runner(us, sc)
     where = "AdbDeviceUsb session %s" % ",".join(s["op"] for s in sc["steps"])
